@@ -67,7 +67,7 @@ func genC11(rt *rapid.T) C11Case {
 		})
 		val := 0
 		for i := 0; i < nc; i++ {
-			ops := rapid.SliceOfN(opGen, 1, 6).Draw(rt, "client")
+			ops := rapid.SliceOfN(opGen, 1, tierN(6, 9)).Draw(rt, "client")
 			for j := range ops {
 				if ops[j].Kind == "put" {
 					val++
@@ -105,10 +105,10 @@ func genC11(rt *rapid.T) C11Case {
 			return op
 		})
 		for i := 0; i < nc; i++ {
-			c.Clients = append(c.Clients, rapid.SliceOfN(opGen, 1, 6).Draw(rt, "client"))
+			c.Clients = append(c.Clients, rapid.SliceOfN(opGen, 1, tierN(6, 10)).Draw(rt, "client"))
 		}
 	}
-	c.Schedule = rapid.SliceOfN(rapid.Uint16Range(0, 3), 0, 200).Draw(rt, "schedule")
+	c.Schedule = rapid.SliceOfN(rapid.Uint16Range(0, 3), 0, tierN(200, 500)).Draw(rt, "schedule")
 	return c
 }
 
